@@ -363,7 +363,14 @@ class Quaternion(SMUserList):
         """
         norm = self.norm()
         s = math.log(norm)
-        v = math.acos(self.s / norm) * base.unitvec(self.v)
+        vnorm = base.norm(self.v)
+        if vnorm == 0:
+            v = np.zeros((3,))
+        else:
+            # atan2 is accurate for every ratio of vector to scalar part, and the
+            # direction is normalised relative to its own length so that small
+            # quaternions are not mistaken for real ones
+            v = math.atan2(vnorm, self.s) * self.v / vnorm
         return Quaternion(s=s, v=v)
 
     def exp(self):
